@@ -43,6 +43,7 @@ import (
 	"github.com/AliceO2Group/Control/core/task/sm"
 	"github.com/AliceO2Group/Control/core/task/taskclass"
 	"github.com/AliceO2Group/Control/core/workflow"
+	"github.com/AliceO2Group/Control/core/workflow/callable"
 	"github.com/sirupsen/logrus"
 	"github.com/spf13/viper"
 
@@ -86,9 +87,9 @@ type lvl struct {
 
 type input struct {
 	// gera
-	H     []smap `json:"h,omitempty"`
-	Ops   []hop  `json:"ops,omitempty"`
-	Other []smap `json:"other,omitempty"`
+	H     []smap   `json:"h,omitempty"`
+	Ops   []hop    `json:"ops,omitempty"`
+	Other []smap   `json:"other,omitempty"`
 	Keys  []string `json:"keys,omitempty"`
 	// flatstack
 	Hs [][]smap `json:"hs,omitempty"`
@@ -420,6 +421,9 @@ func roleDoc(r *roleIn) map[string]any {
 			ch = append(ch, roleDoc(c))
 		}
 		d["roles"] = ch
+	case r.Leaf == "call" && len(callFuncs) > 0:
+		d["call"] = map[string]any{"func": callFuncs[0], "return": "ret", "trigger": "before_CONFIGURE", "critical": false}
+		callFuncs = callFuncs[1:]
 	case r.Leaf == "call":
 		d["call"] = map[string]any{"func": "verif.Noop()", "trigger": "before_CONFIGURE", "critical": false}
 	default:
@@ -429,6 +433,9 @@ func roleDoc(r *roleIn) map[string]any {
 }
 
 var nilID = uid.NilID()
+
+// functions of the call roles of the document being written (call cases only)
+var callFuncs []string
 
 func parentAdapter(d, v, u smap) *workflow.ParentAdapter {
 	gd, gv, gu := gera.MakeMapWithMap(d), gera.MakeMapWithMap(v), gera.MakeMapWithMap(u)
@@ -531,6 +538,31 @@ func loadTree(tmp string, in input) (workflow.Role, lvl, error) {
 	return root, env, err
 }
 
+// iterLocals describes the input tree: the addresses (in the expanded tree, iterators flattened
+// into their parent's children) of the roles generated by an iterator, with variable and value.
+func iterLocals(t *roleIn) []string {
+	var out []string
+	var role func(r *roleIn, addr []int)
+	role = func(r *roleIn, addr []int) {
+		idx := 0
+		for _, c := range r.Children {
+			if c.Tpl != nil {
+				for _, v := range c.IterVals {
+					a := append(append([]int{}, addr...), idx)
+					out = append(out, gen.Pair(nlist(a), gen.Pair(gen.Str(c.IterVar), gen.Str(v))))
+					role(c.Tpl, a)
+					idx++
+				}
+			} else {
+				role(c, append(append([]int{}, addr...), idx))
+				idx++
+			}
+		}
+	}
+	role(t, []int{0})
+	return out
+}
+
 func caseTree(tmp string, in input) gen.Case {
 	root, env, err := loadTree(tmp, in)
 	ops := make([]string, len(in.Ops))
@@ -556,7 +588,7 @@ func caseTree(tmp string, in input) gen.Case {
 		}
 		obsTerm = gen.Some(gen.List(it))
 	}
-	term := fmt.Sprintf("CTree %s %s %s %s", lvlTerm(env), roleTerm(in.Tree), gen.List(ops), obsTerm)
+	term := fmt.Sprintf("CTree %s %s %s %s %s", lvlTerm(env), roleTerm(in.Tree), gen.List(ops), gen.List(iterLocals(in.Tree)), obsTerm)
 	var o any = views
 	if err != nil {
 		o = "load failed"
@@ -670,6 +702,70 @@ func caseTask(tmp string, in input) gen.Case {
 	term := fmt.Sprintf("CTask %s %s %s %s %s %s %s", gen.List(path), gen.KVs(special), rmapTerm(in.CD), rmapTerm(in.CV),
 		gen.StrList(in.Keys), optList(cmd), optList(prop))
 	return gen.Case{Term: term, Kind: "task", Input: in, Obs: map[string]any{"special": special, "cmd": cmd, "prop": prop}}
+}
+
+// ---------------------------------------------------------------- calls
+
+// caseCall: one call role per key at the bottom of a real role chain; the call's function is the
+// bare key, so Call() evaluates "{{ key }}" against the stack it builds and stores the result in
+// the role's runtime variable "ret".
+func caseCall(tmp string, in input) gen.Case {
+	n := len(in.Path)
+	if n < 3 {
+		panic("call case needs a call role, at least one aggregator and the environment")
+	}
+	var leaves []*roleIn
+	for range in.Keys {
+		leaves = append(leaves, &roleIn{Defaults: litMap(in.Path[0].D), Vars: litMap(in.Path[0].V), Leaf: "call"})
+	}
+	node := &roleIn{Defaults: litMap(in.Path[1].D), Vars: litMap(in.Path[1].V), Children: leaves}
+	for i := 2; i <= n-2; i++ {
+		node = &roleIn{Defaults: litMap(in.Path[i].D), Vars: litMap(in.Path[i].V), Children: []*roleIn{node}}
+	}
+	env := in.Path[n-1]
+	callFuncs = in.Keys
+	root, _, err := loadTree(tmp, input{Env: &env, Tree: node})
+	callFuncs = nil
+	if err != nil {
+		panic(err)
+	}
+	r := root
+	for i := n - 2; i >= 1; i-- {
+		for k, v := range in.Path[i].U {
+			r.SetRuntimeVar(k, v)
+		}
+		if i > 1 {
+			r = r.GetRoles()[0]
+		}
+	}
+	obs := make([]*string, len(in.Keys))
+	var special smap
+	for i, leaf := range r.GetRoles() {
+		for k, v := range in.Path[0].U {
+			leaf.SetRuntimeVar(k, v)
+		}
+		hooks := leaf.GetAllHooks()
+		if len(hooks) != 1 {
+			panic("call role without hook")
+		}
+		call, ok := hooks[0].(*callable.Call)
+		if !ok {
+			panic("hook of a call role is not a call")
+		}
+		special = smap{"environment_id": leaf.GetEnvironmentId().String()}
+		if err := call.Call(); err == nil {
+			if v, ok := leaf.GetUserVars().Raw()["ret"]; ok {
+				vv := v
+				obs[i] = &vv
+			}
+		}
+	}
+	path := make([]string, n)
+	for i, l := range in.Path {
+		path[i] = lvlTerm(l)
+	}
+	term := fmt.Sprintf("CCall %s %s %s %s", gen.List(path), gen.KVs(special), gen.StrList(in.Keys), optList(obs))
+	return gen.Case{Term: term, Kind: "call", Input: in, Obs: obs}
 }
 
 // ---------------------------------------------------------------- generators
@@ -851,6 +947,7 @@ func corpus() []struct {
 		// empty value at the nearest level hides a non-empty ancestor value, in every kind
 		{"task", input{Path: []lvl{{smap{"a": ""}, e, e}, {smap{"a": "x"}, e, e}, {smap{"a": "y", "b": "z"}, e, e}}, CD: map[string]tv{"a": {Lit: "y"}}, CV: map[string]tv{}, Keys: []string{"a", "b"}}},
 		{"gera", input{H: []smap{{"a": ""}, {"a": "x", "b": "y"}, {"b": "", "c": "z"}}, Other: []smap{{"c": ""}, {"d": "1"}}, Keys: []string{"a", "b", "c", "d"}}},
+		{"call", input{Path: []lvl{{smap{"a": "x"}, e, e}, {e, smap{"a": ""}, e}, {e, e, smap{"b": ""}}}, Keys: []string{"a", "b", "c", "environment_id"}}},
 		{"stage", input{Locals: smap{"d": ""}, D: []smap{{"a": "x"}, {"a": "y", "d": "z"}}, V: []smap{{"b": "x"}, {"b": ""}}, U: []smap{{"c": ""}, {"c": "y"}}, Keys: []string{"a", "b", "c", "d"}}},
 		{"tree", input{Env: &lvl{D: smap{"a": "x", "b": "y"}, V: smap{"c": ""}, U: smap{"d": "1"}},
 			Tree: &roleIn{Defaults: map[string]tv{"a": {Lit: ""}, "d": {Ref: "a"}}, Vars: map[string]tv{"b": {Ref: "a"}},
@@ -872,6 +969,8 @@ func runCase(tmp, kind string, in input) gen.Case {
 		return caseTree(tmp, in)
 	case "task":
 		return caseTask(tmp, in)
+	case "call":
+		return caseCall(tmp, in)
 	}
 	panic("unknown kind " + kind)
 }
@@ -911,8 +1010,9 @@ func main() {
 		}
 		r := gen.NewRand(o.Seed)
 		rG, rF, rS, rT, rK := r.Fork(), r.Fork(), r.Fork(), r.Fork(), r.Fork()
-		nG, nF, nS, nK := o.N*20/100, o.N*5/100, o.N*15/100, o.N*25/100
-		nT := o.N - nG - nF - nS - nK
+		rC := r.Fork()
+		nG, nF, nS, nK, nC := o.N*20/100, o.N*5/100, o.N*15/100, o.N*20/100, o.N*8/100
+		nT := o.N - nG - nF - nS - nK - nC
 		for i := 0; i < nG; i++ {
 			cases = append(cases, caseGera(genGera(rG)))
 		}
@@ -932,6 +1032,18 @@ func main() {
 		}
 		for i := 0; i < nK; i++ {
 			cases = append(cases, caseTask(tmp, genTask(rK)))
+		}
+		for i := 0; i < nC; i++ {
+			in := genTask(rC)
+			in.CD, in.CV = nil, nil
+			in.Keys = append(append([]string{}, alphabet...), "zz", "environment_id")
+			for j := range in.Path {
+				delete(in.Path[j].V, "task_id")
+			}
+			if rC.Chance(1, 5) {
+				in.Path[rC.Intn(len(in.Path))].U["environment_id"] = "w"
+			}
+			cases = append(cases, caseCall(tmp, in))
 		}
 	}
 	if err := gen.WriteCases(o, "C14", "From Verif Require Import VarStack.", "c14_case", "report14", cases, nil); err != nil {
